@@ -20,6 +20,72 @@ pub const TICK: u64 = 1_000_000; // one virtual tick = 1 ms in ns
 const RUN: [u32; 11] = [1, 2, 3, 4, 6, 8, 16, 32, 64, 128, 700];
 const FAIR_QUANTUM: u32 = 48;
 
+// ---------------------------------------------------------------------------
+// allocation tracking: the detectors key on addresses, so they must know when memory
+// they remember (a retired signal, a shadow cell) has been handed out again by the
+// allocator - including allocations made inside kanal (the stream's boxed future).
+// ---------------------------------------------------------------------------
+const RING: usize = 4096;
+static ALLOC_SEQ: std::sync::atomic::AtomicUsize = std::sync::atomic::AtomicUsize::new(0);
+#[allow(clippy::declare_interior_mutable_const)]
+const AZ: std::sync::atomic::AtomicUsize = std::sync::atomic::AtomicUsize::new(0);
+static RING_ADDR: [std::sync::atomic::AtomicUsize; RING] = [AZ; RING];
+static RING_LEN: [std::sync::atomic::AtomicUsize; RING] = [AZ; RING];
+
+pub struct TrackingAlloc;
+unsafe impl std::alloc::GlobalAlloc for TrackingAlloc {
+    unsafe fn alloc(&self, l: std::alloc::Layout) -> *mut u8 {
+        let p = std::alloc::System.alloc(l);
+        note_alloc(p as usize, l.size());
+        p
+    }
+    unsafe fn alloc_zeroed(&self, l: std::alloc::Layout) -> *mut u8 {
+        let p = std::alloc::System.alloc_zeroed(l);
+        note_alloc(p as usize, l.size());
+        p
+    }
+    unsafe fn dealloc(&self, p: *mut u8, l: std::alloc::Layout) {
+        std::alloc::System.dealloc(p, l)
+    }
+    unsafe fn realloc(&self, p: *mut u8, l: std::alloc::Layout, n: usize) -> *mut u8 {
+        let q = std::alloc::System.realloc(p, l, n);
+        note_alloc(q as usize, n);
+        q
+    }
+}
+
+#[inline]
+fn note_alloc(addr: usize, len: usize) {
+    use std::sync::atomic::Ordering::Relaxed;
+    let i = ALLOC_SEQ.fetch_add(1, Relaxed);
+    RING_ADDR[i % RING].store(addr, Relaxed);
+    RING_LEN[i % RING].store(len, Relaxed);
+}
+
+fn alloc_seq() -> usize {
+    ALLOC_SEQ.load(std::sync::atomic::Ordering::Relaxed)
+}
+
+/// Was [addr, addr+len) (partly) handed out by the allocator since `seq`?  Conservative:
+/// "yes" when the ring has wrapped since then.
+fn reallocated_since(seq: usize, addr: usize, len: usize) -> bool {
+    use std::sync::atomic::Ordering::Relaxed;
+    let now = ALLOC_SEQ.load(Relaxed);
+    if now.wrapping_sub(seq) >= RING {
+        return true;
+    }
+    let mut i = seq;
+    while i != now {
+        let a = RING_ADDR[i % RING].load(Relaxed);
+        let l = RING_LEN[i % RING].load(Relaxed);
+        if a < addr + len && addr < a + l.max(1) {
+            return true;
+        }
+        i = i.wrapping_add(1);
+    }
+    false
+}
+
 #[inline]
 fn join(a: &mut VC, b: &VC) {
     for i in 0..MAXT {
@@ -84,6 +150,8 @@ struct Shadow {
     w_t: u8,
     w_c: u32,
     r: VC,
+    /// allocation sequence number when this cell was last updated
+    seq: usize,
 }
 
 #[derive(Clone, Copy, Debug)]
@@ -92,6 +160,8 @@ struct Range {
     len: usize,
     owner: u8,
     sig: usize,
+    /// allocation sequence number at retire time
+    seq: usize,
 }
 
 #[derive(Clone, Debug, Default)]
@@ -322,6 +392,18 @@ impl Inner {
     }
 
     fn check_uaf(&mut self, t: usize, addr: usize, len: usize, what: &str) {
+        if self.retired.is_empty() {
+            return;
+        }
+        // memory that the allocator has handed out again is a new object, not the dead signal
+        let hit = self
+            .retired
+            .iter()
+            .any(|r| addr < r.start + r.len && r.start < addr + len);
+        if hit {
+            self.retired
+                .retain(|r| !(addr < r.start + r.len && r.start < addr + len && reallocated_since(r.seq, r.start, r.len)));
+        }
         for r in self.retired.iter() {
             if r.owner as usize != t && addr < r.start + r.len && r.start < addr + len {
                 let d = format!(
@@ -354,11 +436,23 @@ impl Inner {
         let c = self.th[t].c;
         let mut bad: Option<String> = None;
         for b in addr..addr + len {
+            let now_seq = alloc_seq();
             let e = self.shadow.entry(b).or_insert(Shadow {
                 w_t: u8::MAX,
                 w_c: 0,
                 r: [0; MAXT],
+                seq: now_seq,
             });
+            if e.seq != now_seq && (e.w_t != u8::MAX || e.r.iter().any(|x| *x != 0)) && reallocated_since(e.seq, b, 1) {
+                // the byte belongs to a new allocation: forget the old object's history
+                *e = Shadow {
+                    w_t: u8::MAX,
+                    w_c: 0,
+                    r: [0; MAXT],
+                    seq: now_seq,
+                };
+            }
+            e.seq = now_seq;
             if e.w_t != u8::MAX && e.w_t as usize != t && e.w_c > c[e.w_t as usize] {
                 bad.get_or_insert_with(|| {
                     format!(
@@ -782,6 +876,7 @@ impl Runtime for Rt {
             len: sig_len,
             owner: t,
             sig,
+            seq: 0,
         });
         if slot != 0 && slot_len != 0 {
             g.live.push(Range {
@@ -789,15 +884,19 @@ impl Runtime for Rt {
                 len: slot_len,
                 owner: t,
                 sig,
+                seq: 0,
             });
         }
     }
     fn retire(&self, sig: usize, _sig_len: usize) {
         let mut g = lock(self);
         let mut moved = Vec::new();
+        let seq = alloc_seq();
         g.live.retain(|r| {
             if r.sig == sig {
-                moved.push(*r);
+                let mut r2 = *r;
+                r2.seq = seq;
+                moved.push(r2);
                 false
             } else {
                 true
